@@ -149,6 +149,12 @@ func checkParseContract(t *fw.T, src string, label string) { checkParseContractC
 // checkParseContractCfg: cfgOverride (if non-nil) replaces the tier's configuration list
 // (deep nesting: pretty output is quadratic in the depth, which is the harness's cost, not xjs's).
 func checkParseContractCfg(t *fw.T, src string, label string, cfgOverride []Cfg) {
+	if t.Index%64 == 9 {
+		// other builders with plugins (a postfix operator on the NOT token, infix / prefix operators, word-like token types,
+		// interceptors, other modes) are configured and used in this process: plain parsers are total as before
+		pluginNoise(t.Index / 64)
+		t.Count("cases_preceded_by_plugin_activity_on_other_builders", 1)
+	}
 	var ranges map[rng]bool
 	for _, m := range AllModes {
 		var po ParseOut
